@@ -5,7 +5,7 @@
 From Coq Require Import String List Bool Arith.
 From Coq Require Import NArith.
 From Verif Require Import Model.StopProto Proofs.StopProtoProofs gen.BlockPoints Check.BlockPointsLemmas Check.StopCheck Check.StopBefore.
-From Verif Require Import Model.Conc Proofs.ConcProofs.
+From Verif Require Import Model.Conc Proofs.ConcProofs Model.ConcFull Proofs.ConcFullProofs.
 Import ListNotations.
 Open Scope nat_scope.
 Open Scope string_scope.
@@ -124,6 +124,32 @@ Theorem C13_observable_check_full : forall sched : list (act * env),
 Proof. exact gcheck_reachable. Qed.
 Print Assumptions C13_observable_check_full.
 
+(* ---- part A, NON-aggregator set (Model/ConcFull.v): delivery of header / data events in any order (DA scan and
+   P2P pollers; a DA event first sets its DA-included mark), the sync loop with trySyncNextBlock (repaired write
+   order block / state / height), the DA-includer; for EVERY proposer's chain.  Admission is assumed (header
+   events are the proposer's headers - C03's subject); data events from the P2P store are arbitrary.
+   For EVERY schedule, after EVERY action: FJ holds - the committed store is exactly a prefix of the proposer's
+   chain (C02 safety), the header cache holds only the proposer's headers, the state height is the store height
+   (one above exactly between `put /s` and `put /t`), DA-included <= height with every block at or below it
+   carrying both marks, DA-included <= persisted <= finalized <= DA-included + 1 (C07).
+   NOT covered: liveness (that the node catches up: the seen sets and the signals between the loops are not in
+   the model), admission itself, the channel capacities, crashes. *)
+Theorem C13_interleaving_fullnode_full : forall (chain_h chain_d : N -> N) (sched : list (fact * fenv)) (n : nat),
+  FJ chain_h chain_d (frun chain_h chain_d finit (firstn n sched)).
+Proof. exact finterleaving_every_prefix. Qed.
+Print Assumptions C13_interleaving_fullnode_full.
+
+Theorem C13_monotone_fullnode_full : forall (chain_h chain_d : N -> N) (sched : list (fact * fenv)) (ae : fact * fenv),
+  fmono (fsh (frun chain_h chain_d finit sched)) (fsh (frun chain_h chain_d finit (sched ++ [ae]))).
+Proof. exact fmonotone. Qed.
+Print Assumptions C13_monotone_fullnode_full.
+
+Theorem C13_observable_check_fullnode_full : forall (chain_h chain_d : N -> N) (sched : list (fact * fenv)),
+  (match py (frun chain_h chain_d finit sched) with T5 _ => False | _ => True end) ->
+  fcheck chain_h chain_d (fsh (frun chain_h chain_d finit sched)) = [].
+Proof. exact fcheck_reachable. Qed.
+Print Assumptions C13_observable_check_fullnode_full.
+
 (* ---- non-vacuity ------------------------------------------------------------------------------------ *)
 (* the guard holds of a real loop with several blocking operations (HeaderSubmissionLoop reaches the select
    of the loop and the back-off select of submitToDA), and an environment with K = 2 meets the bound *)
@@ -196,3 +222,30 @@ Proof. vm_compute. repeat split; reflexivity. Qed.
 Example after_the_repair_none_of_them :
   existsb (fun p => String.eqb (bp_kind p) "sleep" || (String.eqb (bp_kind p) "send")) block_points = false.
 Proof. vm_compute. reflexivity. Qed.
+
+(* full node: data for block 2 arrives first (P2P), then a FORGED data item for height 1, then headers 2 and 1 out
+   of order from the DA layer; handleEmptyDataHash overwrites the forged item; both blocks are applied; block 1
+   becomes DA-included while the sync loop is inside the application of block 2 *)
+Definition xh (h : N) : N := (100 + h)%N.
+Definition xd (h : N) : N := if (h =? 2)%N then 7%N else 0%N.
+Definition fe (hdr : bool) (h id : N) (mark : bool) : fenv := {| f_ok := true; f_hdr := hdr; f_h := h; f_id := id; f_mark := mark |}.
+Definition any : fenv := fe true 0 0 false.
+Definition ex_fsched : list (fact * fenv) :=
+  [ (FSync, any); (FSync, any);
+    (FDeliver, fe false 2 7 false); (FDeliver, any); (FDeliver, any);
+    (FDeliver, fe false 1 9 false); (FDeliver, any); (FDeliver, any);
+    (FSync, fe false 0 0 false); (FSync, any); (FSync, any); (FSync, any); (FSync, any);
+    (FDeliver, fe true 2 0 true); (FDeliver, any); (FDeliver, any);
+    (FDeliver, fe true 1 0 true); (FDeliver, any); (FDeliver, any);
+    (FSync, fe false 0 0 false); (FSync, any); (FSync, any); (FSync, any); (FSync, any);
+    (FSync, any); (FSync, any); (FSync, any); (FSync, any); (FSync, any);
+    (FSync, any); (FSync, any); (FSync, any);
+    (FSync, any); (FSync, any); (FSync, any); (FSync, any); (FSync, any); (FSync, any); (FSync, any);
+    (FDeliver, fe false 2 0 true); (FDeliver, any);
+    (FSync, any); (FSync, any); (FSync, any); (FSync, any);
+    (FIncl, any); (FIncl, any); (FIncl, any); (FIncl, any); (FIncl, any); (FIncl, any); (FIncl, any); (FIncl, any); (FIncl, any);
+    (FSync, any); (FSync, any); (FSync, any) ].
+Example ex_fsched_reaches :
+  let s := fsh (frun xh xd finit ex_fsched) in
+  (fht s, fsth s, fdi s, fpdi s, ffin s) = (2, 2, 1, 1, 1)%N /\ fblk s 1%N = Some (101, 0)%N /\ fblk s 2%N = Some (102, 7)%N.
+Proof. vm_compute. repeat split; reflexivity. Qed.
